@@ -526,4 +526,16 @@ theorem snapshot_maximal {cur : Reader} (h : WF cur) (b : Nat) :
       | true => obtain ⟨_, h1, h2⟩ := contains_iff.mp hcc; exact absurd ⟨h1, h2⟩ hb
     simp [snapshotFor, hc, Reader.empty]
 
+/-- what the reader entry point hands out: never empty, gap-free, first block = height+1 -/
+theorem readerView_spec {s : Store} (h : StoreWF s) (height : Nat) (cached : Option Nat) (d : Diff) :
+    let v := readerView height cached s d
+    0 < v.length ∧ v.newestFirst.length = v.length ∧
+    v.oldestFirst.map (·.number) = List.range' (height + 1) v.length := by
+  have hs := snapshot_spec h (height + 1)
+  simp only [readerView]
+  split
+  · rename_i hpos
+    exact ⟨hpos, hs.1, hs.2⟩
+  · simp [Reader.newestFirst, Reader.oldestFirst, walkOldestFirst, emptyPreConfirmedFor]
+
 end Juno.C20
